@@ -152,6 +152,8 @@ def period_keys(chk):
                         bad.append(at)
                     else:
                         comps_atoms.append(at)
+                        while isinstance(key, tuple) and len(key) == 4 and key[0] == "call" and key[1] in ("tuple", "list") and len(key[2]) == 1 and not key[3]:
+                            key = key[2][0]  # tuple(k) compares like k
                         # a tuple key is equal when all its components are
                         for k_ in (key[1:] if key[0] == "tuple" else (key,)):
                             if k_ not in comps:
